@@ -10,7 +10,8 @@ use crate::topic::ref_matches;
 
 pub fn avoid_all() -> Avoid {
     Avoid {
-        alias_wildcard: true,
+        // R6 was repaired in /repo (broker topic aliases are per topic)
+        alias_wildcard: false,
         // R7 was repaired in /repo (a repeated subscription takes the new QoS over)
         resub_qos: false,
         // R8 was repaired in /repo (one UNSUBACK per UNSUBSCRIBE, driven by the connection's own
@@ -72,6 +73,8 @@ pub fn main_campaign() -> SimCampaign {
             w_droplink: 2,
             w_reconnect: 4,
             p_pub_alias: 10,
+            // v5 subscribers announce a topic alias maximum (broker -> client aliases)
+            p_alias: 20,
             ..GenCfg::default()
         },
         flags: Flags {
@@ -87,8 +90,9 @@ pub fn main_campaign() -> SimCampaign {
     }
 }
 
-/// Known finding R6: broker topic alias (v5 subscriber with topic-alias-maximum > 0) on a
-/// wildcard filter: the alias is keyed by filter, so a second topic arrives under the first's alias
+/// R6 (repaired in /repo): broker topic alias (v5 subscriber with topic-alias-maximum > 0) on a
+/// wildcard filter: the alias was keyed by filter, so a second topic arrived under the first's
+/// alias. Kept as a focused campaign: every subscriber enables aliases, wildcard filters only.
 pub fn probe_r6() -> SimCampaign {
     let mut c = main_campaign();
     c.name = "probe_r6_alias_wildcard";
@@ -98,8 +102,8 @@ pub fn probe_r6() -> SimCampaign {
     c.gen.w_burst = 0;
     c.gen.filters = ["a/+", "a/#", "#", "+/b"].iter().map(|s| s.to_string()).collect();
     c.flags.avoid.alias_wildcard = false;
-    c.quick = 300;
-    c.thorough = 3000;
+    c.quick = 3000;
+    c.thorough = 60000;
     c.nontrivial = |s, _| if s.forwards > 1 { Some("alias".into()) } else { None };
     c.probes = vec!["delivery:topic_changed", "delivery:unknown_topic_alias"];
     c
@@ -134,7 +138,7 @@ pub fn plan(_tier: Tier) -> Plan {
         assumptions: vec![
             "The router is single-threaded; links interact with it only through the event channel and two mutex-protected buffers, so every real schedule is a partition of the event sequence into turns plus drain points — which is what the generator draws".into(),
             "Completeness is asserted only for streams whose unread backlog stayed below (segment_count-1)*segment_size bytes (retention-relaxed streams keep the safety clauses)".into(),
-            "Known-finding regions R6 (broker topic alias with wildcard filter) is excluded by construction and probed (R7, re-subscribe with another QoS, and R8, UNSUBSCRIBE shapes, were repaired and are generated everywhere)".into(),
+            "Known-finding regions R6 (broker topic alias with wildcard filter), R7 (re-subscribe with another QoS) and R8 (UNSUBSCRIBE shapes) were repaired in /repo and are generated everywhere".into(),
         ],
         min_nontrivial: 20,
     }
